@@ -697,8 +697,9 @@ class GenericPlainRegistry(Generic[QuantityT, UnitT], metaclass=RegistryMeta):
                 # to 'arcsecond'): keep its definition.
                 return name
 
-            symbol = self.get_symbol(name, case_sensitive)
             prefix_def = self._prefixes[prefix]
+            # of this very reading (parsing the name again could find another one)
+            symbol = prefix_def.symbol + self._units[unit_name].symbol
             # A prefixed unit does not depend on the active contexts: register it
             # in the registry proper and not in the layer of a context that
             # redefines units, which goes away when the context is left.
